@@ -17,9 +17,9 @@ cd $wt
 git apply $src/patch.diff || { echo "PATCH DOES NOT APPLY"; git -C /repo worktree remove --force $wt; exit 2; }
 suite=$(cargo test --workspace --no-fail-fast --offline 2>&1 | grep -E "^test result" | awk '{p+=$4; f+=$6} END {print p" passed "f" failed"}')
 cp $src/seeded_demo.rs $wt/$demo_path
-with=$(cargo test --offline $pkg $feat --test seeded_demo 2>&1 | grep -E "^test result" | tail -1)
+with=$(cd $([ "$pkg" = "-p miniz_oxide" ] && echo miniz_oxide || echo .) && cargo test --offline $([ "$pkg" = "-p miniz_oxide" ] || echo $pkg) $feat --test seeded_demo 2>&1 | grep -E "^test result" | tail -1)
 git apply -R $src/patch.diff
-without=$(cargo test --offline $pkg $feat --test seeded_demo 2>&1 | grep -E "^test result" | tail -1)
+without=$(cd $([ "$pkg" = "-p miniz_oxide" ] && echo miniz_oxide || echo .) && cargo test --offline $([ "$pkg" = "-p miniz_oxide" ] || echo $pkg) $feat --test seeded_demo 2>&1 | grep -E "^test result" | tail -1)
 cd $V
 git -C /repo worktree remove --force $wt
 echo "suite_with_change: $suite"; echo "demo_with_change: $with"; echo "demo_without_change: $without"
